@@ -15,22 +15,42 @@ def probe():
     return 0 if ok else 1
 
 def determinism(n=40):
-    """each seed twice, at two worker counts, on both variants; fingerprints must be pairwise equal"""
-    core.build('plain'); core.build('asan')
+    """each case twice, at two worker counts, on every build variant; fingerprints (decision-trace hash, outputs, failures) must be pairwise equal.
+    Worlds: whole encoder (all policies, buggify, machines), multi-instance (enc+dec), multi-threaded decoder, SRM and segment component worlds, fine-grained preemption."""
+    from . import checks3
+    core.build('plain'); core.build('asan'); core.build('fine')
     rng = random.Random(12345)
-    cases = []
+    enc = []
     for i in range(n):
         w, h = gen.size(rng)
         cfg = {'enc_mode': 8, 'qp': 30, 'recon_enabled': 1, 'logical_processors': rng.choice([1, 2, 4, 8]), 'source_width': w, 'source_height': h}
         c = gen.enc_case(cfg, gen.content(rng), {'n': rng.randint(2, 8), 'pacing': rng.choice(['each', 'random', 'every_k'])}, sim=gen.schedule(rng), machine=gen.machine(rng), oracles={'decode': 0})
-        cases.append(c)
-    bad = 0
-    for variant in ('plain', 'asan'):
+        enc.append(c)
+    st = checks3.make_streams(['base8', 'tiles1x2', 'tiles2x2'])
+    dec = [checks3.dec_case(st[rng.choice(sorted(st))], rng.choice([2, 3, 4, 8]), sim=dict(gen.schedule(rng, horizon=3000, nthreads=9), step_limit=30000000)) for _ in range(n)] if st else []
+    comp = []
+    for i in range(n * 3):
+        srm = {'objects': rng.randint(1, 6), 'producers': rng.randint(1, 4), 'consumers': rng.randint(1, 4), 'per_producer': rng.randint(1, 12), 'poller': 0, 'extra_refs': rng.choice([0, 1, 2]), 'releasers': rng.randint(1, 2), 'body_yields': rng.choice([0, 1, 2])}
+        comp.append({'world': 'srm', 'srm': srm, 'sim': dict(gen.schedule(rng, horizon=800, nthreads=10), step_limit=3000000)})
+        w, h = rng.randint(1, 20), rng.randint(1, 14)
+        seg = {'w': w, 'h': h, 'cols': rng.randint(1, 8), 'rows': rng.randint(1, 8), 'workers': rng.randint(1, 8), 'pictures': 2, 'w2': w, 'h2': h, 'max_cols': 8, 'max_rows': 8, 'body_yields': 1}
+        comp.append({'world': 'seg', 'seg': seg, 'sim': dict(gen.schedule(rng, horizon=2000, nthreads=9), step_limit=20000000)})
+    multi = []
+    for i in range(max(4, n // 4)):
+        insts = [checks3.inst({'enc_mode': 8, 'logical_processors': rng.choice([1, 2])}, {'kind': 'mix', 'seed': rng.randint(1, 99)}, rng.randint(2, 4), (64, 64), delay=rng.choice([0, 500, 3000]))]
+        if st: s = st['base8']; insts.append({'kind': 'dec', 'stream': s['path'], 'w': s['w'], 'h': s['h'], 'bd': s['bd'], 'threads': rng.choice([1, 2]), 'delay': rng.choice([0, 800])})
+        multi.append({'world': 'multi', 'instances': insts, 'sim': gen.schedule(rng, horizon=12000, nthreads=60, allow_buggify=False), 'machine': {'cores': 4, 'sockets': 1}, 'oracles': {'decode': 0, 'parse': 0}})
+    fine = [dict(c, sim=dict(gen.schedule(rng, allow_buggify=False), fine=rng.choice([3000, 20000]))) for c in enc[:max(6, n // 3)]]
+    bad = 0; total = 0
+    for variant, cases in (('plain', enc + dec + comp + multi), ('asan', enc[:n // 2] + dec[:n // 2] + multi[:3]), ('fine', fine + [dict(m, sim=dict(m['sim'], fine=8000)) for m in multi[:3]])):
         a = pmap(lambda c: run_case(c, variant), cases, jobs=16)
         b = pmap(lambda c: run_case(c, variant), cases, jobs=3)
+        vb = 0
         for c, x, y in zip(cases, a, b):
             if core.fingerprint(x) != core.fingerprint(y):
-                bad += 1; log('NONDETERMINISTIC', variant, json.dumps(c['sim']), core.fingerprint(x), core.fingerprint(y))
-        log('%s: %d cases x2, %d mismatches' % (variant, len(cases), bad))
-    print('determinism: %d mismatches' % bad)
+                vb += 1; log('NONDETERMINISTIC', variant, c.get('world'), json.dumps(c['sim']), core.fingerprint(x), core.fingerprint(y))
+        bad += vb; total += len(cases)
+        log('%s: %d cases x2 (16 and 3 workers), %d mismatches; outcomes %s' % (variant, len(cases), vb, sorted(set(x.get('outcome') for x in a))))
+    checks3.cleanup_streams()
+    print('determinism: %d cases executed twice, %d mismatches' % (total, bad))
     return 1 if bad else 0
